@@ -14,7 +14,7 @@ F_CONTOUR = "lazy-contour-cache-handed-out-writeable"
 W_FEATS = ["deform", "area_um", "userdef1"]      # targets of in-place writes
 K_FEATS = ["aspect", "bright_avg"]               # inputs of KDE / downsampling, never written
 READ_FORMS = ["full", "asarray", "array_nocopy", "dunder_array", "basic_slice", "int",
-              "fancy", "bool", "ufunc", "float32"]
+              "fancy", "bool", "ufunc", "float32", "array_copy", "array_copy_f8"]
 WRITE_KINDS = ["set_item", "set_all", "imul", "iadd", "fill", "reverse", "sort"]
 
 
@@ -48,6 +48,10 @@ def _read(ds, feat, form, index):
         return np.asarray(obj)
     if form == "array_nocopy":
         return np.array(obj, copy=None)
+    if form == "array_copy":
+        return np.array(obj)                    # the client's own copy (it may change it)
+    if form == "array_copy_f8":
+        return np.array(obj, dtype=np.float64, copy=True)
     if form == "dunder_array":
         return obj.__array__()
     if form in ("basic_slice", "int", "fancy", "bool"):
@@ -60,7 +64,8 @@ def _read(ds, feat, form, index):
 
 
 def _expected_read(expected, form, index):
-    if form in ("full", "asarray", "array_nocopy", "dunder_array"):
+    if form in ("full", "asarray", "array_nocopy", "dunder_array", "array_copy",
+                "array_copy_f8"):
         return expected
     if form in ("basic_slice", "int", "fancy", "bool"):
         return expected[index]
